@@ -11,7 +11,7 @@ TECH = "deterministic simulation with fault injection (seeded schedule/fault sea
 # id -> (category, technique, text, note, design_ref)
 CLAIMED = {
     "C02": ("exploration", TECH,
-            "Seeded search over entry multisets, per-replica permutations with duplicates, ingress paths (local / remote / in-message), clean restarts, flushes and age-commit placements against the RefDoc reference model: every offer result and every dumped state must equal the model, and all replicas must agree with join(E). The stores also hold neighbour documents (smaller and larger ids, ids ending in 0xFF) that take writes in between and must stay untouched. Exploration is the right level: the space of orders is unbounded, the model is tiny and exact.",
+            "Seeded search over entry multisets, per-replica permutations with duplicates, ingress paths (local / remote / in-message), clean restarts, flushes and age-commit placements against the RefDoc reference model: every offer result and every dumped state must equal the model, and all replicas must agree with join(E); unrelated operations in between (writes to and removal of other documents, a policy, a peer registration, a read, a read-only capability import) must change nothing. The stores also hold neighbour documents (smaller and larger ids, ids ending in 0xFF) that take writes in between and must stay untouched. Exploration is the right level: the space of orders is unbounded, the model is tiny and exact.",
             "Trusted: redb, ed25519 (deterministic signatures), postcard; entries with equal (timestamp, hash) but different length are outside the generator.", "5 C02"),
     "C13": ("exploration", TECH,
             "Same histories as C02 (older entries after newer ones, duplicates, restarts, age-commits); at check points the reported heads must equal the greatest held timestamp per author and has_news_for_us must equal the brute-force count; plus encode/decode of head sets of up to 320 authors under size limits placed at, one below and one above item boundaries (pure part, labelled).",
@@ -50,25 +50,25 @@ CLAIMED.update({
 
 CLAIMED.update({
     "C04": ("exploration", TECH,
-            "2-5 nodes (SimDisk + store + real store actor, per-node skewed wall clock) take local writes and deletions; every local insert is broadcast through SimNet (deliver in any order, drop, duplicate, partition/heal) and applied by the remote-insert path as gossip::receive_loop does; sessions between pairs run over SimPipes frame by frame and are cut (EOF/reset) at any frame; nodes restart cleanly or crash (L1/L2). Then faults stop and complete sessions along a random spanning tree must reach a silent round within nodes+1 rounds, with all nodes equal to the merge of what they held; without crashes also equal to the merge of all acknowledged local writes; no node ever holds an entry nobody wrote. A second batch runs the same histories with clock skew far beyond the future bound and judges the safety oracles only.",
+            "2-5 nodes (SimDisk + store + real store actor, per-node skewed wall clock) take local writes and deletions; every local insert is broadcast through SimNet (deliver in any order, drop, duplicate, partition/heal) and applied by the remote-insert path as gossip::receive_loop does; sessions between pairs run over SimPipes frame by frame and are cut (EOF/reset) at any frame; nodes restart cleanly or crash (L1/L2); in half of the runs nodes first write dozens of keys whose broadcasts are all lost, and one node may hold the document read-only (a relay). Then faults stop and complete sessions along a random spanning tree must reach a silent round within nodes+1 rounds, with all nodes equal to the merge of what they held; without crashes also equal to the merge of all acknowledged local writes; no node ever holds an entry nobody wrote. A second batch runs the same histories with clock skew far beyond the future bound and judges the safety oracles only.",
             "iroh-gossip delivery and QUIC are stubbed; the live actor's dial decisions are C11's subject. Clock skew is kept within the future bound (4 min).", "5 C04"),
     "C06": ("fault_enumeration", "deterministic simulation: per sampled history complete enumeration of crash points x loss models x age-commit placements on SimDisk, reference-model oracle",
-            "For each sampled history on a persistent store the simulator enumerates every crash point (after every backend write / set_len / sync) under loss models L1 and L2 for every single placement of the age-based auto-commit at each internal store call of each operation (thorough: sampled L3/torn images, EIO/ENOSPC, more double placements); each reopened image must open, equal a state the live store passed through between two complete operations not older than the last flush/read, and have consistent lookups, query paths and heads.",
+            "For each sampled history on a persistent store the simulator enumerates every crash point (after every backend write / set_len / sync) under loss models L1 and L2 for every single placement of the age-based auto-commit at each internal store call of each operation (thorough: sampled L3/torn images, EIO/ENOSPC, more double placements); each reopened image must open, equal a state the live store passed through between two complete operations not older than the last flush/read, and have consistent lookups, query paths and heads. A second batch (actor-crash, exploration) drives the real store actor on a SimDisk (pipelined requests from several clients, flush requests, the 500 ms flush timer, reads that commit) and kills it at a plan-chosen instant with or without letting it drain its inbox: the reopened image (all writes / synced writes only) must equal the state after some whole request not older than the last acknowledged flush.",
             "redb's commit protocol and recovery are trusted (crashes during the two writes that create the database are excluded). The histories themselves are sampled; the per-history crash x placement space is exhaustive.", "5 C06"),
     "C09": ("exploration", TECH,
             "Stream part: real protocol messages are framed by the real codec and reach the real frame reader through a SimPipe under plan-chosen release sizes and read chunks, truncation after any byte, single-byte corruption, oversized and understated length prefixes: clean streams must decode to the input, truncated ones to a prefix followed by end or error, oversized prefixes to an error or need-more-data, a frame whose prefix understates its payload to an error, never a bogus message or a panic. Pure part (labelled, not simulation): round trips and hostile bytes for signed entries, author heads, tickets, capabilities, filters, policies; the three pinned encodings are recomputed.",
             "Frames are produced as the sessions produce them (one FramedWrite::send per message).", "5 C09"),
     "C10": ("exploration", TECH,
-            "The initiating or accepting side runs against a real local store actor over SimPipes; the other side is the real counterpart or a scripted peer sending up to 6 frames over {Init known/unknown, Sync, made-up ranges, Abort, garbage, oversized, truncated} then close; streams are chunked and cut (EOF/reset) after any byte in either direction; the local replica is closed, sync-disabled or its actor shut down before any delivered frame; the accept callback allows or declines. Oracles: no panic (including collecting the acceptor's outcome), termination once nothing is in flight, protocol-violating frames make the session fail, a declined request sends Abort and leaves the store unchanged, mutual success has mirrored counts.",
+            "The initiating or accepting side runs against a real local store actor over SimPipes; the other side is the real counterpart or a scripted peer sending up to 6 frames over {Init known/unknown (a third of them already carrying entries), Sync, made-up ranges, Abort, garbage, oversized, truncated} then close; streams are chunked and cut (EOF/reset) after any byte in either direction; the local replica is closed, sync-disabled or its actor shut down before any delivered frame; the accept callback allows or declines. Oracles: no panic (including collecting the acceptor's outcome), termination once nothing is in flight, protocol-violating frames make the session fail, a declined request sends Abort and leaves the store unchanged, mutual success has mirrored counts.",
             "Mirrored counts are only demanded when no stream cut fired (a transport that accepts bytes, drops them and then signals a clean end cannot be detected by either end of this protocol).", "5 C10"),
     "C11": ("exploration", TECH,
-            "Two or three real LiveActors (real store actors; Endpoint/Gossip/blob store constructed but idle) in any id order that sync one or two documents, every (document, pair) being a lane with its own oracles while the other lanes carry traffic; a guarded dial seam hands every dial to the driver which decides delivery, loss or breakage of each request, delivery or loss of declines, and independent ok/failed completion of both ends of each session, plus neighbour-up and sync-report events; safety after every step (no two sessions in progress, exactly one accept on a mutual simultaneous dial, exactly one follow-up dial after a refused news report, NotFound for unknown documents) and progress at quiescence (both idle, able to dial and to accept). A second batch (coord-real) runs every dial as the real run_alice and every delivered request as the real BobState::run + into_outcome over SimPipes that the driver releases frame by frame, cuts or resets.",
+            "Two or three real LiveActors (real store actors; Endpoint/Gossip/blob store constructed but idle) in any id order that sync one or two documents, every (document, pair) being a lane with its own oracles while the other lanes carry traffic; a guarded dial seam hands every dial to the driver which decides delivery, loss or breakage of each request, delivery or loss of declines, and independent ok/failed completion of both ends of each session, plus neighbour-up and sync-report events; safety after every step (no two sessions in progress, exactly one accept on a mutual simultaneous dial, exactly one follow-up dial after a refused news report, NotFound for unknown documents) and progress at quiescence (both idle, able to dial and to accept). A second batch (coord-real) runs every dial as the real run_alice and every delivered request as the real BobState::run + into_outcome over SimPipes that the driver releases frame by frame, cuts or resets, while in a third of the runs a replica is closed or has its sync switch flipped underneath its live actor.",
             "Connection handling of connect_and_sync / handle_connection is replaced by the seam (in coord the session results are synthetic, in coord-real they come from the real wire sessions). Changing which documents are syncing mid-session is outside the property's quantifier.", "5 C11"),
     "C12": ("exploration", TECH,
-            "One real store actor with 0-4 subscribers (channel capacities 1-32) that the driver drains, pauses, unsubscribes or drops at plan-chosen instants (also while the actor is blocked sending to them); local inserts/deletions, valid/superseded/badly signed remote inserts, reconciliation messages interleaved with local writes, policy changes; in half of the runs a neighbouring document of the same store with its own subscriber and policy takes writes and policy changes in between; every subscriber must have received exactly the applied entries, once, in application order, with the right variant, peer, content status and download flag.",
+            "One real store actor with 0-4 subscribers (channel capacities 1-32) that the driver drains, pauses, unsubscribes or drops at plan-chosen instants (also while the actor is blocked sending to them); local inserts/deletions, valid/superseded/badly signed remote inserts, reconciliation messages interleaved with local writes, policy changes; in half of the runs a neighbouring document of the same store with its own subscriber and policy takes writes and policy changes in between; capability imports on the open document (which may start read-only), additional handles opened and released, the sync switch; every subscriber must have received exactly the applied entries, once, in application order, with the right variant, peer, content status and download flag.",
             "A subscriber that never drains is outside the documented contract and is not injected (paused ones are resumed when the actor blocks on them).", "5 C12"),
     "C14": ("exploration", TECH,
-            "1-3 clients pipeline 6-60 requests into one real store actor (its unchanged run loop polled on the simulator's paused runtime); every reply is compared with a sequential model applied in send order: handle counting, close result, gates for not-open / sync-off / read-only, sticky sync, FIFO visibility, get-many snapshots consumed after later writes, shutdown returning a store (and a disk image) with every acknowledged write; faults: reply receivers dropped before the answer, streams dropped, flush timer firing between batches, shutdown with requests queued behind it.",
+            "1-3 clients pipeline 6-60 requests into one real store actor (its unchanged run loop polled on the simulator's paused runtime); every reply is compared with a sequential model applied in send order: handle counting, close result, gates for not-open / sync-off / read-only, sticky sync, FIFO visibility, get-many snapshots consumed after later writes, shutdown returning a store (and a disk image) with every acknowledged write; the model also predicts get_state (handles, sync, subscriber count), set/get download policy, register/list useful peers and has-news; documents may start read-only; a third of the disk-backed runs end in a crash judged against per-request snapshots; faults: reply receivers dropped before the answer, streams dropped, flush timer firing between batches, shutdown with requests queued behind it.",
             "Because the inbox is FIFO the linearizability check degenerates to replay of the sequential model in send order. drop_replica with more than one handle is not generated (the statement does not define its effect on the handle count).", "5 C14"),
 })
 
